@@ -29,7 +29,9 @@ Fails(e) ==
                                        ELSE ImageFails(e.x, e.y, e.lo, e.up, e.m)
     [] e.op = "inverse"   -> IF N = 1 THEN Inverse1Fails(e.y, e.x, e.lo, e.up)
                                        ELSE InverseFails(e.y, e.x, e.lo, e.up, e.m)
-    [] e.op = "roundtrip" -> IF N = 1 THEN (IF QClose(e.x, e.x2, QPow2(-40)) THEN {} ELSE {"RoundTrip"})
+    [] e.op = "roundtrip" -> IF N = 1 THEN \* the image is rounded to an ulp of its magnitude; the inverse divides that by the width
+                                          (IF QClose(e.x, e.x2, QAdd(QPow2(-40), QMul(QPow2(-40), QDiv(Scale1(e.lo[1], e.up[1]), QSub(e.up[1], e.lo[1])))))
+                                           THEN {} ELSE {"RoundTrip"})
                                        ELSE RoundTripFails(e.x, e.x2, e.m)
     [] e.op = "pair"      -> HoelderFails(e.x1, e.x2, e.y1, e.y2, e.lo, e.up, e.m)
     [] e.op = "adjacent"  -> AdjacentFails(e.y1, e.y2, e.lo, e.up, e.m)
